@@ -84,7 +84,7 @@ class Double:
                 st = "NO" if kind == "NO" else ("BYE" if kind == "BYE" else "")
                 self.events.append(["reply", st, "", [], kind])
                 if kind == "NO":
-                    out += b'NO (QUOTA/MAXSIZE) "refused"\r\n'
+                    out += b'NO (QUOTA/MAXSIZE) "refused: {2} KiB over the {64} KiB limit"\r\n'
                 elif kind == "BYE":
                     out += b'BYE "going down"\r\n'
                     return out
@@ -95,6 +95,11 @@ class Double:
             if kind == "lost":
                 self.events.append(["reply", "", "", [], "lost"])
                 return out or None
+            if kind == "stall":
+                # part of the reply, then silence beyond the read timeout, then the rest
+                self.events.append(["reply", "", "", [], "lost"])
+                cut = wire.find(b"}\r\n") + 4 if wire.startswith(b"{") else max(1, len(wire) // 2)
+                return ("stall", out + wire, len(out) + min(cut, len(wire) - 1))
             self.events.append(["reply", status, code, data, ""])
             out += wire
         return out
@@ -106,7 +111,7 @@ class Double:
             return "OK", "", [[n, n == self.active] for n in sorted(s)], lines + self.ok()
         if verb == "GETSCRIPT":
             if a not in s:
-                return "NO", "NONEXISTENT", [], b'NO (NONEXISTENT) "no such script"\r\n'
+                return "NO", "NONEXISTENT", [], b'NO (NONEXISTENT) "no such script {1}"\r\n'
             body = BODIES[s[a]].encode("utf-8")
             return "OK", "", [s[a]], b"{%d}\r\n%s\r\n" % (len(body), body) + self.ok()
         if verb == "PUTSCRIPT":
@@ -117,19 +122,19 @@ class Double:
                 self.active = ""
                 return "OK", "", [], self.ok()
             if a not in s:
-                return "NO", "NONEXISTENT", [], b'NO (NONEXISTENT) "no such script"\r\n'
+                return "NO", "NONEXISTENT", [], b'NO (NONEXISTENT) "no such script {1}"\r\n'
             self.active = a
             return "OK", "", [], self.ok()
         if verb == "DELETESCRIPT":
             if a not in s:
-                return "NO", "NONEXISTENT", [], b'NO (NONEXISTENT) "no such script"\r\n'
+                return "NO", "NONEXISTENT", [], b'NO (NONEXISTENT) "no such script {1}"\r\n'
             if a == self.active:
                 return "NO", "ACTIVE", [], b'NO (ACTIVE) "active script"\r\n'
             del s[a]
             return "OK", "", [], self.ok()
         if verb == "RENAMESCRIPT":
             if a not in s:
-                return "NO", "NONEXISTENT", [], b'NO (NONEXISTENT) "no such script"\r\n'
+                return "NO", "NONEXISTENT", [], b'NO (NONEXISTENT) "no such script {1}"\r\n'
             if b in s:
                 return "NO", "ALREADYEXISTS", [], b'NO (ALREADYEXISTS) "exists"\r\n'
             s[b] = s.pop(a)
@@ -252,7 +257,7 @@ def validate(traces):
 def tlc_rename(tier):
     names = '{"a", "b", "r{2}"}' if tier == "thorough" else '{"a", "r{2}"}'
     bodies = '{"B2", "B3", "B7"}'       # B3 is the empty script, B7 holds exotic line separators inside a line
-    cfg = ("SPECIFICATION RSpec\nCONSTANTS\n Names = %s\n Bodies = %s\n FaultKinds = {\"NO\", \"BYE\", \"silence\", \"lost\"}\n"
+    cfg = ("SPECIFICATION RSpec\nCONSTANTS\n Names = %s\n Bodies = %s\n FaultKinds = {\"NO\", \"BYE\", \"silence\", \"lost\", \"stall\"}\n"
            "INVARIANT InvNoLoss\nINVARIANT InvNoOverwrite\nINVARIANT InvSuccessPost\nINVARIANT InvFailsCleanly\n"
            "INVARIANT EmitRename\nCHECK_DEADLOCK FALSE\n" % (names, bodies))
     out = []
